@@ -177,7 +177,7 @@ func enumBatch(c *rp.Ctx, raws []json.RawMessage) []rp.Result {
 						at = " at " + fr[0]
 					}
 					res[i] = rp.Result{I: i, OK: false, Nontriv: true,
-						What:     fmt.Sprintf("%s(%d).%s panics: %v%s", cs.T, v, m.name, pan, at),
+						What:     fmt.Sprintf("%s.%s is not total: panic%s for value %d: %v", cs.T, m.name, at, v, pan),
 						Observed: map[string]interface{}{"stack": stack}}
 				}
 			}
